@@ -216,6 +216,22 @@ def rail_caterpillar(levels, feet=True):
     return canon(es)
 
 
+def deep_narrow(rng, layers, width, extra=0.35):
+    """`layers` layers of `width` nodes; every node has an edge to the layer below and one from the layer above, plus a few
+    more; edge list shuffled.  Crossings whose removal climbs one layer per sweep: iterative improvement needs many passes."""
+    node = lambda l, k: l * width + k
+    es = set()
+    for l in range(layers - 1):
+        for k in range(width):
+            es.add((node(l, k), node(l + 1, rng.randrange(width))))
+            es.add((node(l, rng.randrange(width)), node(l + 1, k)))
+            if rng.random() < extra:
+                es.add((node(l, k), node(l + 1, rng.randrange(width))))
+    es = sorted(es)
+    rng.shuffle(es)
+    return canon(es)
+
+
 def chord_chain(L, chords):
     """a chain of L nodes plus chords (u, v): an edge spanning |v - u| layers (a back edge if v < u) - routes with many bends"""
     return canon([(i, i + 1) for i in range(L - 1)] + list(chords))
